@@ -72,7 +72,13 @@ pub async fn serve(
                         },
                     );
                 }
-                "unregister" | "unregistered" => {
+                "unregister" => {
+                    // A request to unregister stops whichever instance is current, exactly as
+                    // it does live - also when the server went down before the instance could
+                    // acknowledge it with `.unregistered`
+                    topic_states.remove(&(frame.context_id, topic.to_string()));
+                }
+                "unregistered" => {
                     // Only remove if handler_id matches
                     if let Some(meta) = &frame.meta {
                         if let Some(handler_id) = meta.get("handler_id").and_then(|v| v.as_str()) {
